@@ -14,7 +14,9 @@
 //!          (5 idsrc) set_incomplete_chunk | (6) pending_data | (7 k) complete future k
 //!          (8) poll the stream once | (9 idsrc) errors(boundary) | (10 idsrc) get_incomplete_chunk
 //!          (12 kind codec text) Resource(0) / OnceResource(1) / SharedValue(2) with
-//!                               JsonSerdeCodec(0) / FromToStringCodec(1)
+//!                               JsonSerdeCodec(0) / FromToStringCodec(1) / FromToBytesCodec(2: base64);
+//!                               logs (13 b): does the real client-side decoding of the real
+//!                               server-side encoding return the value
 //! idsrc  : (0 n) the number n | (1 k) the k-th id handed out by next_id so far
 use futures::{Stream, StreamExt};
 use hydration_context::{
@@ -22,8 +24,12 @@ use hydration_context::{
     SsrSharedContext,
 };
 use leptos_server::{
-    codee::string::{FromToStringCodec, JsonSerdeCodec},
-    OnceResource, Resource, SharedValue,
+    codee::{
+        binary::FromToBytesCodec,
+        string::{FromToStringCodec, JsonSerdeCodec},
+        Decoder, Encoder,
+    },
+    FromEncodedStr, IntoEncodedString, OnceResource, Resource, SharedValue,
 };
 use reactive_graph::owner::Owner;
 use std::{
@@ -277,6 +283,51 @@ impl Session {
         }
     }
 
+    /// cmd 12 with the codec `Ser`: first the pure pair check (the real server-side encoding
+    /// handed to the real client-side decoding: `Ser::encode` -> `IntoEncodedString` ->
+    /// `FromEncodedStr` -> `Ser::decode`), then the real Resource / OnceResource / SharedValue
+    fn resource<Ser>(&mut self, kind: i64, payload: String)
+    where
+        Ser: Encoder<String> + Decoder<String> + 'static,
+        <Ser as Encoder<String>>::Error: std::fmt::Debug,
+        <Ser as Decoder<String>>::Error: std::fmt::Debug,
+        <<Ser as Decoder<String>>::Encoded as FromEncodedStr>::DecodingError: std::fmt::Debug,
+        <Ser as Encoder<String>>::Encoded: IntoEncodedString,
+        <Ser as Decoder<String>>::Encoded: FromEncodedStr,
+    {
+        use std::borrow::Borrow;
+        let wire = Ser::encode(&payload).unwrap().into_encoded_string();
+        let back = <<Ser as Decoder<String>>::Encoded as FromEncodedStr>::from_encoded_str(&wire)
+            .ok()
+            .and_then(|enc| Ser::decode(enc.borrow()).ok());
+        self.log
+            .push(Lst(vec![Num(13), Sexp::bool(back.as_ref() == Some(&payload))]));
+
+        let hydrating = self.sc.get_is_hydrating();
+        if !self.islands || hydrating {
+            self.client_ids.push(self.client.next_id().into_inner());
+        }
+        let owner = self.owner.clone();
+        type Kept = Box<dyn std::any::Any>;
+        let kept: Kept = if kind == 2 {
+            owner.with(|| {
+                Box::new(SharedValue::<String, Ser>::new_with_encoding(move || payload)) as Kept
+            })
+        } else {
+            let g = self.new_gate(payload);
+            owner.with(|| match kind {
+                0 => Box::new(Resource::<String, Ser>::new_with_options(
+                    || (),
+                    move |_| GateFuture(g.clone()),
+                    false,
+                )) as Kept,
+                _ => Box::new(OnceResource::<String, Ser>::new_with_options(GateFuture(g), false))
+                    as Kept,
+            })
+        };
+        self.keep.push(kept);
+    }
+
     fn cmd(&mut self, c: &Sexp) {
         match c.at(0).num() {
             0 => {
@@ -330,47 +381,12 @@ impl Session {
             }
             12 => {
                 let kind = c.at(1).num();
-                let codec = c.at(2).num();
                 let payload = text(c.at(3));
-                let hydrating = self.sc.get_is_hydrating();
-                if !self.islands || hydrating {
-                    self.client_ids.push(self.client.next_id().into_inner());
+                match c.at(2).num() {
+                    0 => self.resource::<JsonSerdeCodec>(kind, payload),
+                    1 => self.resource::<FromToStringCodec>(kind, payload),
+                    _ => self.resource::<FromToBytesCodec>(kind, payload),
                 }
-                let owner = self.owner.clone();
-                type Kept = Box<dyn std::any::Any>;
-                let kept: Kept = if kind == 2 {
-                    owner.with(|| match codec {
-                        0 => Box::new(SharedValue::<String, JsonSerdeCodec>::new_with_encoding(
-                            move || payload,
-                        )) as Kept,
-                        _ => Box::new(SharedValue::<String, FromToStringCodec>::new_with_encoding(
-                            move || payload,
-                        )) as Kept,
-                    })
-                } else {
-                    let g = self.new_gate(payload);
-                    owner.with(|| match (kind, codec) {
-                        (0, 0) => Box::new(Resource::<String, JsonSerdeCodec>::new_with_options(
-                            || (),
-                            move |_| GateFuture(g.clone()),
-                            false,
-                        )) as Kept,
-                        (0, _) => Box::new(Resource::<String, FromToStringCodec>::new_with_options(
-                            || (),
-                            move |_| GateFuture(g.clone()),
-                            false,
-                        )) as Kept,
-                        (_, 0) => Box::new(OnceResource::<String, JsonSerdeCodec>::new_with_options(
-                            GateFuture(g),
-                            false,
-                        )) as Kept,
-                        (_, _) => Box::new(OnceResource::<String, FromToStringCodec>::new_with_options(
-                            GateFuture(g),
-                            false,
-                        )) as Kept,
-                    })
-                };
-                self.keep.push(kept);
             }
             _ => {}
         }
